@@ -60,6 +60,7 @@ FieldPool ==
       f_subs  |-> F("Subs", "subs", <<>>, "plain", "slice_struct:sub"),
       f_hid   |-> F("Hidden", "hidden", <<>>, "skip", "string"),
       f_ratio |-> F("Ratio", "ratio", <<>>, "plain", "float"),
+      f_camel |-> F("Retries", "maxRetries", <<"MaxRetries">>, "plain", "int"),   \* a TAG key is taken as written: no case folding, unlike the default (field-name) key
       i_map   |-> F("Rest", "", <<>>, "inline", "inline_map"),
       i_str   |-> F("RestS", "", <<>>, "inline", "struct:inl"),
       i_str2  |-> F("RestT", "", <<>>, "inline", "struct:inl2") ]
